@@ -15,7 +15,7 @@ const GOOD_NUM: [&str; 38] = [
     "&hff", "&17", "", "  12  ", "1E5", "0.1", "&HD", "&h1d", "&HAD", " &H7D0 ", "&H1E", "&hE2", "&HDE", "&h7fff", "&77777",
     "&0", "&H0", "2d-1", "1D+2", "1.25d1", "007", "-0.5",
 ];
-const BAD_NUM: [&str; 12] = ["x", "1x", "--1", "1 2", "12AB", "inf", "nan", ".", "E5", "&HG", "&8", "\"5\""];
+const BAD_NUM: [&str; 18] = ["x", "1x", "--1", "1 2", "12AB", "inf", "nan", ".", "E5", "&HG", "&8", "\"5\"", "&", "&H", "&h", "&é", "é", "&H1G"];
 const STRS: [&str; 12] = ["HELLO", "hello world", "", "  padded  ", "\"quoted\"", "\"a,b\"", "\"  keep  \"", "é→ß", "\"", "a\"b", "\"x", "12"];
 
 fn parse_num(f: &str) -> Option<f64> {
